@@ -100,7 +100,7 @@ def float_consts(t: str, level: int) -> list[int]:
     if level < 0:
         return [z, nan]
     if level == 0:
-        return [z, nz, one, inf, nan]
+        return [z, nz, one, fbits(t, -1.0), inf, nan]  # 1 and -1: (1 + x) - 1 exposes any reassociation
     if level == 1:
         return [z, nz, one, fbits(t, -1.0), inf, nan, fbits(t, 0.1)]
     return [z, nz, one, fbits(t, -1.0), fbits(t, 2.0), inf, inf | fmt.sign_bit, nan, fbits(t, 0.1), fmt.max_finite,
@@ -243,27 +243,36 @@ def op_pattern(op) -> str:
     return "(" + ",".join(kinds[x[0]] for x in opr) + ")"
 
 
-def window(rec, start: int, size: int):
-    """the sub-program made of ops[start:start+size]; results of earlier ops become fresh arguments"""
+def window(rec, start: int, size: int, values: dict | None = None):
+    """the sub-program made of ops[start:start+size]; results of earlier ops become fresh arguments, or -- when
+    `values` maps them to bit patterns -- constants of that value"""
     _, top, args, cs, ops, rets = rec
     args = list(args)
     ren: dict[str, str] = {}
     new_ops = []
-    used_k: list[str] = []
+    new_cs: list = []
+    kmap: dict[str, str] = {}
 
     def m(ref: str) -> str:
         if ref[0] == "a":
             return ref
         if ref[0] == "k":
-            if ref not in used_k:
-                used_k.append(ref)
-            return "k" + str(used_k.index(ref))
+            if ref not in kmap:
+                new_cs.append(cs[int(ref[1:])])
+                kmap[ref] = "k" + str(len(new_cs) - 1)
+            return kmap[ref]
         j = int(ref[1:])
         if j >= start:
             return "r" + str(j - start)
         if ref not in ren:
-            args.append(ops[j][3])
-            ren[ref] = "a" + str(len(args) - 1)
+            t = ops[j][3]
+            if values is not None:
+                v = values[ref]
+                new_cs.append((t, v if is_float(t) else R.sview(v, twidth(t))))
+                ren[ref] = "k" + str(len(new_cs) - 1)
+            else:
+                args.append(t)
+                ren[ref] = "a" + str(len(args) - 1)
         return ren[ref]
 
     for name, var, opr, rt in ops[start:start + size]:
@@ -271,8 +280,27 @@ def window(rec, start: int, size: int):
     keep = [r for r in rets if r[0] == "r" and start <= int(r[1:]) < start + size]
     last = [f"r{j}" for j in range(start + size - 1, start - 1, -1) if ops[j][3] is not None][:1]
     new_rets = tuple(m(r) for r in (keep or last))
-    new_cs = tuple(cs[int(k[1:])] for k in used_k)
-    return ("sl", top, tuple(args), new_cs, tuple(new_ops), new_rets)
+    return ("sl", top, tuple(args), tuple(new_cs), tuple(new_ops), new_rets)
+
+
+def earlier_values(rec, start: int, at_args) -> dict | None:
+    """reference values of the results of ops[:start] on the input at_args (None when one is poison / opaque)"""
+    _, top, args, cs, ops, rets = rec
+    if top or at_args is None or len(at_args) != len(args):
+        return None
+    out = {}
+    for j in range(start):
+        if ops[j][3] is None or op_kind(ops[j][0]) == "opaque":
+            return None
+        try:
+            P = Prog(("sl", False, args, cs, ops[:j + 1], (f"r{j}",)))
+            r, _ = evaluate(P.mod, False, at_args)
+        except Exception:  # noqa: BLE001
+            return None
+        if r is POISON:
+            return None
+        out[f"r{j}"] = r[0][1]
+    return out
 
 
 # ======================================================================================
@@ -434,22 +462,29 @@ def is_bad(verdict: str) -> bool:
     return verdict.split("|")[0] in BAD
 
 
-def blame(rec, pass_name: str, verdict: str, big: bool, max_size: int | None = None):
+def blame(rec, pass_name: str, verdict: str, big: bool, max_size: int | None = None, at_args=None):
     """(op label, operand pattern) of the smallest contiguous window of a straight-line program that shows
-    the same failure kind under the same pass (None when max_size is given and no such window exists)"""
+    the same failure kind under the same pass (None when max_size is given and no such window exists).
+    A window is tried with the results of earlier ops as fresh arguments and, when the failing input is known,
+    as the constants they evaluate to (a fold of the second op that needs the first to have been folded)."""
     ops = rec[4]
     n = len(ops)
     for size in range(1, n if max_size is None else min(n, max_size + 1)):
         for start in range(0, n - size + 1):
             if all(op_kind(o[0]) == "opaque" for o in ops[start:start + size]):
                 continue
-            try:
-                v, _ = run_pass(Prog(window(rec, start, size)), pass_name, False)
-            except Exception:  # noqa: BLE001 - a window that is not a valid program cannot be blamed
-                continue
-            if v == verdict:
-                return _labels(window(rec, start, size)[4])  # patterns as the window shows them (earlier results = arg)
-    return _labels(ops) if max_size is None else None
+            variants = [None]
+            if start > 0 and (vals := earlier_values(rec, start, at_args)) is not None:
+                variants.append(vals)
+            for vals in variants:
+                try:
+                    w = window(rec, start, size, vals)
+                    v, _ = run_pass(Prog(w), pass_name, False)
+                except Exception:  # noqa: BLE001 - a window that is not a valid program cannot be blamed
+                    continue
+                if v == verdict:
+                    return _labels(w[4]) + (w,)  # patterns as the window shows them
+    return _labels(ops) + (None,) if max_size is None else None
 
 
 def _labels(ops) -> tuple[str, str]:
@@ -464,13 +499,23 @@ def signature(rec, pass_name: str, verdict: str, detail: dict, big: bool) -> str
     if kind == "raises" and detail.get("tb_op"):
         # the op the rewrite pattern was applied to when the exception escaped
         return f"C14|{pass_name}|{verdict}|{detail['tb_op']}"
+    win = None
     if rec[0] == "text":
         label, pat = rec[4], rec[5]
     elif rec[0] == "pair":
         base = ("sl",) + tuple(rec[1:6])
-        label, pat = blame(base, pass_name, verdict, big, max_size=1) or (rec[6], rec[7])
+        label, pat, win = blame(base, pass_name, verdict, big, max_size=1, at_args=detail.get("args")) or (rec[6], rec[7], None)
     else:
-        label, pat = blame(rec, pass_name, verdict, big)
+        label, pat, win = blame(rec, pass_name, verdict, big, at_args=detail.get("args"))
+    if win is not None and "," in pass_name:
+        # the blamed window fails under one pass of the pipeline on its own: that pass's finding
+        for n in dict.fromkeys(pass_name.split(",")):
+            try:
+                if run_pass(Prog(win), n, False)[0] == verdict:
+                    pass_name = n
+                    break
+            except Exception:  # noqa: BLE001
+                pass
     if kind == "raises":
         return f"C14|{pass_name}|{verdict}|{label.split('|')[0]}"
     return f"C14|{pass_name}|{label}|{pat}|{kind}"
@@ -705,10 +750,10 @@ def chain_plan(quick: bool) -> list[tuple]:
         oth = other_sigs(t)
         for s in red:
             plan.append((t, s, red, 0, None))
-        for s in cmps + [o for o in oth if (o[0], o[3]) != ("arith.select", "i1")]:
+        for s in cmps:
             plan.append((t, s, oth, 0, None))
         t = "f32"
-        arith_f = [s for s in binary_sigs(t) if s[0] != "arith.cmpf"] + [("arith.negf", None, (t,), t)]
+        arith_f = [(f"arith.{n}", None, (t, t), t) for n in ("addf", "subf", "mulf", "divf")] + [("arith.negf", None, (t,), t)]
         for s in arith_f:
             plan.append((t, s, arith_f, 0, None))
         for s in [s for s in binary_sigs(t) if s[0] == "arith.cmpf"]:
@@ -1069,10 +1114,6 @@ def gen_loops():
 # ======================================================================================
 # task enumeration
 # ======================================================================================
-def _chunks(n: int, size: int):
-    return [(lo, min(n, lo + size)) for lo in range(0, n, size)]
-
-
 def tasks_for(quick: bool) -> list[tuple]:
     tasks: list[tuple] = []
     for t in INT_TYPES + FLOAT_TYPES:
@@ -1157,9 +1198,13 @@ def run(ctx):
         "max_arguments": "2 (3 for the one select(arg, arg, arg) shape and for cfg templates with a variable condition)",
         "single_op": "all operand patterns (arg,arg) (x,x) (arg,const) (const,arg) (const,const') (k,k); constants: full boundary set "
                      "(ints 0 1 -1 2 min max w w-1 2^(w-2); floats +-0 +-1 2 +-inf NaN 0.1 max 3)",
-        "chains": ("2-op chains over i8 and f32 with constants {0,1,-1} / {+0,-0,1,inf,NaN}" if quick else
-                   "2-op chains over all 7 types with constants {0,1,-1,2,min,max,w-1} / {+-0,+-1,inf,NaN,0.1}; 3-op chains over "
-                   f"{list(IBIN3)} on i8 with constants {{0,1,-1}}"),
+        "chains": ("2-op chains: i8 over " + str(list(IBIN3)) + " x the same, and select / casts / i1 ops after each cmpi predicate; "
+                   "f32 over addf subf mulf divf negf x the same, select after each cmpf predicate; constants {0,1,-1} / "
+                   "{+0,-0,1,-1,inf,NaN} (select slots {0,-1} / {+0,NaN})" if quick else
+                   "2-op chains: i8 and f32 over every listed op x every listed op with constants {0,1,-1,2,min,max,w-1} / "
+                   "{+0,-0,1,-1,inf,NaN,0.1} and all-constant first ops over {0,1,-1} / {+0,-0,1,-1,inf,NaN}; i1 i32 i64 index f64 over "
+                   f"the two-operand ops (+negf) with constants {{0,1,-1}} / {{+0,-0,1,-1,inf,NaN}}; 3-op chains over {list(IBIN4)} "
+                   "on i8 with constants {0,-1}; chains use the quick input grid"),
         "inputs_per_argument": {"i1": 2, "i8/i32/i64/index": len(input_values("i32", not quick)),
                                 "i8 (single-argument programs, thorough)": 256 if not quick else len(input_values("i8", False)),
                                 "f32/f64": len(input_values("f32", not quick))},
